@@ -23,6 +23,7 @@ mod c12;
 mod c13;
 mod c14;
 mod c15;
+mod c18;
 mod c19;
 mod fuzzrun;
 mod ir;
@@ -79,6 +80,7 @@ fn main() {
         "C14" => "C14",
         "C15" => "C15",
         "C17" => "C17",
+        "C18" => "C18",
         "C19" => "C19",
         "C20" => "C20",
         _ => usage(),
@@ -101,6 +103,7 @@ fn main() {
         "C14" => c14::run(&ctx),
         "C15" => c15::run(&ctx),
         "C17" => c17::run(&ctx),
+        "C18" => c18::run(&ctx),
         "C19" => c19::run(&ctx),
         "C20" => c20::run(&ctx),
         _ => unreachable!(),
